@@ -27,7 +27,10 @@ def get_instances(labeled_frame: sio.LabeledFrame) -> List[MatchInstance]:
     """
     instance_list = []
     frame_idx = labeled_frame.frame_idx
-    video_path = labeled_frame.video.backend.source_filename
+    # only embedded (HDF5) video backends have a `source_filename`
+    video_path = getattr(
+        labeled_frame.video.backend, "source_filename", labeled_frame.video.filename
+    )
     for instance in labeled_frame.instances:
         match_instance = MatchInstance(
             instance=instance, frame_idx=frame_idx, video_path=video_path
@@ -58,7 +61,8 @@ def find_frame_pairs(
             if (
                 isinstance(video.backend, type(video_gt.backend))
                 and video.filename == video_gt.filename
-                and video.backend.dataset == video_gt.backend.dataset
+                and getattr(video.backend, "dataset", None)
+                == getattr(video_gt.backend, "dataset", None)
             ):
                 video_pr = video
                 break
